@@ -191,6 +191,7 @@ def replay_case(case):
     def two(a):
         return np.einsum("ia,jb,ab...->ij...", R, R, a)
 
+    mi = m("gbasis.integrals.moment").moment_integral
     ov = m("gbasis.integrals.overlap").overlap_integral
     cmp("overlap_integral", ov(shells2), two(ov(shells)))
     ke = m("gbasis.integrals.kinetic_energy").kinetic_energy_integral
@@ -211,7 +212,6 @@ def replay_case(case):
     cmp("angular_momentum_integral (pseudo-vector law%s)" % (" with the d x p shift" if case["translate"] else ""), am(shells2), want,
         scale=np.abs(want).max() + np.abs(p1).max() * np.abs(shift).max())
     if case["kind"] == "axis":
-        mi = m("gbasis.integrals.moment").moment_integral
         ords2 = np.array([[2, 0, 1], [0, 1, 0], [1, 1, 2], [0, 0, 0], [3, 0, 0]])
         # order along new axis k = order along old axis perm[k]
         ords1 = np.array([[o[list(perm).index(j + 1)] for j in range(3)] for o in ords2])
@@ -223,6 +223,20 @@ def replay_case(case):
             s = np.prod([sgn[k] ** o2[k] for k in range(3)])
             for dt in ("general", "direct") if max(o2) <= 2 else ("general",):
                 cmp("evaluate_deriv_basis(%s, %s)" % (o2, dt), ed(shells2, move(pts), np.array(o2), deriv_type=dt), s * (R @ ed(shells, pts, o1, deriv_type=dt)))
+    # first and second moments about the (moved) origin: vector and tensor laws -- for ANY orthogonal motion
+    o1 = np.array([[1, 0, 0], [0, 1, 0], [0, 0, 1]])
+    o2 = np.array([[2, 0, 0], [1, 1, 0], [1, 0, 1], [0, 2, 0], [0, 1, 1], [0, 0, 2]])
+    tix = [(0, 0), (0, 1), (0, 2), (1, 1), (1, 2), (2, 2)]
+
+    def tens(a):
+        t = np.zeros(a.shape[:2] + (3, 3))
+        for n, (i, j) in enumerate(tix):
+            t[:, :, i, j] = a[:, :, n]
+            t[:, :, j, i] = a[:, :, n]
+        return t
+    cmp("moment_integral, first moments (vector law)", mi(shells2, move(org), o1), np.einsum("kj,abj->abk", G, two(mi(shells, org, o1))))
+    cmp("moment_integral, second moments (tensor law)", tens(mi(shells2, move(org), o2)),
+        np.einsum("ki,lj,abij->abkl", G, G, tens(two(mi(shells, org, o2)))))
     ev = m("gbasis.evals.eval").evaluate_basis
     cmp("evaluate_basis at the moved points", ev(shells2, move(pts)), R @ ev(shells, pts))
     D = m("gbasis.evals.density")
